@@ -85,6 +85,7 @@ func Exec(t *testing.T, p *Plan, replay bool) (res *Result) {
 		simrt.AllowClockJitter = p.Sched.Jitter
 		simrt.Reset(ch)
 		simnet.Reset()
+		simnet.AcceptFailures = p.AcceptFail
 		cwd := p.Att.Cwd
 		if cwd == "" {
 			cwd = "/simcwd"
@@ -136,6 +137,9 @@ func Exec(t *testing.T, p *Plan, replay bool) (res *Result) {
 			w.faults[k]++
 		}
 		res.Faults = w.faults
+		if simnet.AcceptFailed > 0 {
+			res.Faults["net.accept_error_fired"] += simnet.AcceptFailed
+		}
 		w.rare["c03.parse_calls"] = w.parseCalls
 		res.Rare = w.rare
 		res.Retained = w.retain
